@@ -10,7 +10,7 @@ from .. import editcorr as ec
 from .. import editprops as ep
 from .. import framework as fw
 
-GEN_TABLES = ()
+GEN_TABLES = ("cli_set", "cli_rm")
 
 
 def run(ctx: fw.Ctx):
